@@ -33,6 +33,9 @@ func c05Schema(soft bool) *j.Schema {
 	if s, ok := c05Schemas[soft]; ok {
 		return s
 	}
+	// another program version's struct for the same type names, with another layout, was in use
+	// earlier in this process (its own schema): nothing about it may stick to the type NAME
+	_ = BuildSchema([]TypeD{{Name: "t", Attrs: []AttrD{{"zz", kStr}, {"a00", kInt}}, Rels: []RelD{{"one", false, "u", ""}}}, {Name: "u", Attrs: []AttrD{{"b", kStr}, {"q", kBool}}}}, []bool{false, false})
 	s := BuildSchema([]TypeD{c05TypeD(), {Name: "u", Attrs: []AttrD{{"b", kBool}}}}, []bool{soft, !soft})
 	// a struct-backed type whose json tags carry options (legal for encoding/json; the
 	// library takes the whole tag as the field name)
@@ -527,6 +530,9 @@ func c05Misc(x *mc.Exec) {
 			`{"type":"opts","id":"x"}`, `{"data":{"type":"opts","id":"x","attributes":{"name,omitempty":"n","count,string":3}}}`, `{"type":"opts","id":"x","attributes":{"name":"n"}}`,
 			`{"type":"opts","id":"x","relationships":{"owner,omitempty":{"data":{"type":"u","id":"1"}},"tags,omitempty":{"data":[{"type":"u","id":"1"}]}}}`,
 			`{"data":[{"type":"opts","id":"x","relationships":{"tags,omitempty":{"data":null}}}]}`, `{"type":"opts","id":"x","relationships":{"tags":{"data":[]}}}`,
+			// the same identifier / member twice
+			`[{"type":"u","id":"1"},{"type":"u","id":"1"}]`, `[{"type":"u","id":"1"},{"type":"t","id":"1"},{"type":"u","id":"1"},{"type":"u","id":"1"}]`,
+			`{"data":[{"type":"t","id":"x"},{"type":"t","id":"x"}]}`, `{"type":"t","id":"x","relationships":{"many":{"data":[{"type":"u","id":"1"},{"type":"u","id":"1"}]}}}`,
 			`{"type":"t","id":"x","meta":5}`, `{"type":"t","id":"x","meta":null}`, `{"type":"t","id":"x","meta":[]}`, `{"type":"t","id":7}`, `{"type":7,"id":"x"}`, `{"type":null,"id":null}`,
 		}
 		i := x.Choose(len(raws), "raw")
